@@ -86,6 +86,27 @@ Definition snap_wf (w : wstate) : list string :=
                     end +++ ":" +++ join "," (sorts (wn_static (snd kn)))) (w_nodes w)
   ++ ["wb:" +++ len_str (w_branches w)].
 
+(* the runner a successful Compile returns, in the same rendering (the harness reads the compiled
+   record through compose.VerifC09Project): node keys, control / data edges, branches, trigger
+   mode, eager flag, step limit.  The entries belong to the snapshot of that Compile call only. *)
+Definition z_str (z : Z) : string :=
+  match z with
+  | Z0 => "0"
+  | Zpos p => nat_str (Npos p)
+  | Zneg p => "-" +++ nat_str (Npos p)
+  end.
+
+Definition snap_out (o : outcome) : list string :=
+  match o with
+  | OCompiled r =>
+    map (fun kn => "rn:" +++ fst kn) (r_nodes r)
+    ++ map (fun p => "rc:" +++ pair_str p) (r_ctrl r)
+    ++ map (fun p => "rd:" +++ pair_str p) (r_data r)
+    ++ map (fun b => "rb:" +++ fst b +++ ">" +++ join "," (sorts (fst (snd b)))) (r_branches r)
+    ++ ["rg:" +++ b2s (r_dag r) "dag" "pregel"; "re:" +++ b2s (r_eager r) "eager" "batch"; "rm:" +++ z_str (r_max_steps r)]
+  | _ => []
+  end.
+
 Local Open Scope list_scope.
 
 Fixpoint list_eqb {A} (eqb : A -> A -> bool) (a b : list A) : bool :=
@@ -144,7 +165,7 @@ Fixpoint replay_g (v : ver) (g : gstate) (prev : list N) (cs : list (gcall * see
   | (c, (b, d)) :: rest =>
     let '(g', o) := gstep v g c in
     let st := apply_diff prev d in
-    if matches o b && same_state (snap_graph g') st then replay_g v g' st rest (note g' o rs) else None
+    if matches o b && same_state (snap_graph g' ++ snap_out o) st then replay_g v g' st rest (note g' o rs) else None
   end.
 
 Fixpoint replay_c (v : ver) (c : cstate) (prev : list N) (cs : list (ccall * seen)) (rs : issued) : option bool :=
@@ -153,7 +174,7 @@ Fixpoint replay_c (v : ver) (c : cstate) (prev : list N) (cs : list (ccall * see
   | (call, (b, d)) :: rest =>
     let '(c', o) := cstep v c call in
     let st := apply_diff prev d in
-    if matches o b && same_state (snap_chain c') st then replay_c v c' st rest (note (c_g c') o rs) else None
+    if matches o b && same_state (snap_chain c' ++ snap_out o) st then replay_c v c' st rest (note (c_g c') o rs) else None
   end.
 
 (* first pair of orders among the candidates whose outcome and resulting state match *)
@@ -163,7 +184,7 @@ Fixpoint pick_order (v : ver) (w : wstate) (o : copt) (b : obs) (st : list N) (c
   | [] => None
   | (ord, sord) :: rest =>
     let '(w', out) := w_compile v w o ord sord in
-    if matches out b && same_state (snap_wf w') st then Some (w', out) else pick_order v w o b st rest
+    if matches out b && same_state (snap_wf w' ++ snap_out out) st then Some (w', out) else pick_order v w o b st rest
   end.
 
 (* [ord] / [sord] of an observed WCompile: the nodes whose deferred inputs / static values that
@@ -184,7 +205,7 @@ Fixpoint replay_w (v : ver) (w : wstate) (prev : list N) (cs : list (wcall * see
       end
     | _ =>
       let '(w', o) := wstep v w call in
-      if matches o b && same_state (snap_wf w') st then replay_w v w' st rest (note (w_g w') o rs) else None
+      if matches o b && same_state (snap_wf w' ++ snap_out o) st then replay_w v w' st rest (note (w_g w') o rs) else None
     end
   end.
 
